@@ -507,6 +507,7 @@ func (t TypeHandle) HasType(c ast.Constant) bool {
 			val := requiredArgs[i]
 			fieldTpeMap[key] = TypeHandle{val, t.ctx}
 		}
+		numRequired := len(fieldTpeMap)
 		optArgs, err := StructTypeOptionaArgs(tpe)
 		if err != nil {
 			return false
@@ -515,11 +516,19 @@ func (t TypeHandle) HasType(c ast.Constant) bool {
 			f := optArg.(ast.ApplyFn)
 			fieldTpeMap[f.Args[0].(ast.Constant)] = TypeHandle{f.Args[1], t.ctx}
 		}
+		optional := make(map[ast.Constant]bool)
+		for _, optArg := range optArgs {
+			optional[optArg.(ast.ApplyFn).Args[0].(ast.Constant)] = true
+		}
+		seenRequired := 0
 		seen := make(map[ast.Constant]bool)
 		e, err := c.StructValues(func(key ast.Constant, val ast.Constant) error {
 			fieldTpe, ok := fieldTpeMap[key]
 			if !ok {
 				return errTypeMismatch
+			}
+			if !seen[key] && !optional[key] {
+				seenRequired++
 			}
 			seen[key] = true
 			if !fieldTpe.HasType(val) {
@@ -529,7 +538,8 @@ func (t TypeHandle) HasType(c ast.Constant) bool {
 		}, func() error {
 			return nil
 		})
-		return e == nil && err == nil && len(fieldTpeMap) == len(seen)
+		// An optional field may be absent; every required field must be present.
+		return e == nil && err == nil && seenRequired == numRequired
 	case UnionType.Symbol:
 		for _, arg := range tpe.Args {
 			alt := TypeHandle{arg, t.ctx}
